@@ -670,6 +670,49 @@ def emit_gen(g) -> str:
             f"Definition src_kw_last : bool := {_coq_bool(g['fast_kw_last'])}.\n")
 
 
+# ------------------------------------------------------- strategies/_unions.py
+
+def translate_unions(repo: Path):
+    file = "src/cattrs/strategies/_unions.py"
+    mod = ast.parse((repo / file).read_text())
+    fn = None
+    for n in ast.walk(mod):
+        if isinstance(n, ast.FunctionDef) and n.name == "make_structure_native_union":
+            fn = n
+    if fn is None:
+        raise T1Unrecognised(file, 0, "make_structure_native_union not found")
+    lv = [s for s in fn.body if isinstance(s, ast.Assign) and _src(s.targets[0]) == "literal_values"]
+    if len(lv) != 1 or not isinstance(lv[0].value, ast.SetComp):
+        raise T1Unrecognised(file, fn.lineno, "literal_values is not a set comprehension")
+    elt = _src(lv[0].value.elt)
+    checks = []
+    for n in ast.walk(fn):
+        if isinstance(n, ast.If) and "literal_classes" in _src(n.test):
+            checks.append(_src(n.test))
+    if len(checks) != 2 or checks[0] != checks[1]:
+        raise T1Unrecognised(file, fn.lineno, f"expected the same literal check in both hook variants, got {checks}")
+    if elt == "(v.__class__, v)" and checks[0] == "val.__class__ in literal_classes and (val.__class__, val) in vals":
+        pairs = True
+    elif elt == "v" and checks[0] == "val.__class__ in literal_classes and val in vals":
+        pairs = False
+    else:
+        raise T1Unrecognised(file, lv[0].lineno, f"literal check `{checks[0]}` over elements `{elt}`")
+    # order of the checks in both variants: literal, then classes, then spillover / TypeError
+    for n in ast.walk(fn):
+        if isinstance(n, ast.FunctionDef) and n.name == "structure_native_union":
+            b = [_src(x) for x in _strip_doc(n.body)]
+            if len(b) != 3 or not b[0].startswith("if val.__class__ in literal_classes") or not b[1].startswith("if val.__class__ in classes:"):
+                raise T1Unrecognised(file, n.lineno, "structure_native_union: order of the checks")
+            if not (b[2].startswith("return converter.structure(val, spillover)") or b[2].startswith("raise TypeError(")):
+                raise T1Unrecognised(file, n.lineno, "structure_native_union: last statement")
+    return {"literal_pairs": pairs}
+
+
+def emit_unions(u) -> str:
+    return ("(* GENERATED by harness/t1_translate.py from src/cattrs/strategies/_unions.py -- do not edit *)\n"
+            f"Definition src_lit_pairs : bool := {_coq_bool(u['literal_pairs'])}.\n")
+
+
 def main():
     repo, outdir = Path(sys.argv[1]), Path(sys.argv[2])
     outdir.mkdir(parents=True, exist_ok=True)
@@ -710,6 +753,15 @@ def main():
         summary["ok"] = False
         summary["errors"].append(str(e))
         summary["sections"]["gen"] = False
+    try:
+        u = translate_unions(repo)
+        write("UnionsSrc.v", emit_unions(u))
+        summary["unions"] = u
+        summary["sections"]["unions"] = True
+    except T1Unrecognised as e:
+        summary["ok"] = False
+        summary["errors"].append(str(e))
+        summary["sections"]["unions"] = False
     print(json.dumps(summary))
     return 0 if summary["ok"] else 3
 
